@@ -86,6 +86,14 @@ class Int(Op):
             out += [self.hi + self.step, self.hi + 2 * self.step]
         if self.rej_lo:
             out += [self.lo - self.step, self.lo - 2 * self.step]
+        out = [v for v in out if self.classify(v) == "rej"]
+        if out and self.far:
+            # a valid value plus 2^32 / 2^16: accepted only by an implementation that truncates
+            if self.rej_hi or self.rej_from is not None:
+                out += [self.lo + (1 << 32), self.hi + (1 << 16)]
+            if self.rej_lo:
+                out += [self.hi - (1 << 32)]
+            out = [v for v in out if self.classify(v) == "rej"]
         return out
 
     def opclass(self, v):
@@ -122,6 +130,9 @@ class Int(Op):
             return d.choice(b)
         span = max(self.hi - self.lo + 1, 4)
         far = []
+        if self.rej_hi or self.rej_from is not None:
+            w = d.int(self.lo // self.step, self.hi // self.step) * self.step + (1 << d.choice([16, 24, 32, 48]))
+            far.append(w if self.classify(w) == "rej" else self.boundary_rej()[0])
         if self.rej_from is not None:
             far.append(self.rej_from + self.step * d.int(1, min(span * 3, 70000)))
         elif self.rej_hi:
@@ -243,7 +254,7 @@ class Form:
 
 class Isa:
     def __init__(self, name, cpu, forms, syntax, gran=1, slot=16, base=0x1000, prologue=(), maxaddr=0xffff,
-                 golden=None, offsets=(0,), page_end=None, golden_ignore=(), straddle=False, maxitems=250):
+                 golden=None, offsets=(0,), page_end=None, golden_ignore=(), straddle=False, maxitems=250, pcsym=None):
         self.name = name            # our name
         self.cpu = cpu              # asl CPU name
         self.forms = forms
@@ -258,6 +269,7 @@ class Isa:
         self.page_end = page_end        # (page size, pc modulo page) to be visited by PC-relative forms
         self.golden_ignore = set(golden_ignore)
         self.maxitems = maxitems
+        self.pcsym = pcsym              # symbol of the current program counter in expressions ('*' or '$')
         self.straddle = straddle        # relative forms are visited at both ends of a batch
         names = [f.name for f in forms]
         dup = {n for n in names if names.count(n) > 1} if len(set(names)) != len(names) else set()
